@@ -1,5 +1,5 @@
 (* C06 — Unmatched requests resolve HEAD->GET, fallback route, 405/Allow, 404 in order. Property theorems only. *)
-From Rux Require Import Base Str Consts Norm NormFacts Writer Chain Dispatch Pattern Pat Cache Table TableFacts PatTable SelectFacts.
+From Rux Require Import Base Str Consts Norm NormFacts Writer Chain Dispatch Pattern Pat Cache Table TableFacts TableMore PatTable SelectFacts.
 Open Scope Z_scope.
 
 (* For every grammar-level table, every option combination (without caching / InterceptAll, see below), every
@@ -26,6 +26,11 @@ Proof.
   intros rt m p1 p2 H. unfold quick_match, quick_match_gen.
   destruct (o_intercept (ropts rt)) as [|c q] eqn:E; [congruence|]. reflexivity.
 Qed.
+(* ... namely exactly as a request for q on the same router without the option *)
+Theorem C06_intercept_as_request : forall rt m p q, q <> [] -> o_intercept (ropts rt) = [] ->
+  fst (quick_match (with_intercept q rt) m p) = fst (quick_match rt m q).
+Proof. exact intercept_as_request. Qed.
+
 (* the default handlers: 405 with "Allow: sorted, comma separated" (200 for OPTIONS), 404 *)
 Theorem C06_default_405 : forall al, default_405 false al =
   [OEff (EW (WSetHeader hdr_allow (join comma_sp (sort_strs al)))); OEff (EW (WHttpError msg_405 405))].
@@ -47,6 +52,7 @@ Proof. split; vm_compute; reflexivity. Qed.
 Print Assumptions C06_order.
 Print Assumptions C06_cached.
 Print Assumptions C06_intercept.
+Print Assumptions C06_intercept_as_request.
 Print Assumptions C06_default_405.
 Print Assumptions C06_default_405_options.
 Print Assumptions C06_default_404.
